@@ -206,6 +206,9 @@ def classify(res):
     for i, e in enumerate(edits):
         if any(j != i and e["target"] and e["target"] in (o["new"] or "") for j, o in enumerate(edits)):
             return "F-target-in-new-text-of-batch"
+    if editgen.batch_collisions(res["case"]["doc"], edits):
+        # (the target comes about next to another edit's new text: 'ribbon ' + '1 fjord' makes ' 1')
+        return "F-target-in-new-text-of-batch"
     return None
 
 
